@@ -14,7 +14,7 @@
 (***************************************************************************)
 EXTENDS Labels, Sequences, FiniteSets, SequencesExt, Json, TLC
 
-CONSTANTS MaxLen, Size
+CONSTANTS MaxLen, Size, Small      \* Small: a reduced step alphabet, so that longer histories stay enumerable
 
 F(i, o, once, fails) == [in |-> i, out |-> o, form |-> "struct", hasErr |-> TRUE, fails |-> fails, once |-> once, nilOut |-> FALSE, failAs |-> ""]
 
@@ -29,13 +29,13 @@ Pools == { << F(<<L("", "T3", "")>>, <<L("", "T2", "")>>, TRUE, FALSE),         
               F(<<L("", "T2", ""), L("", "T4", "")>>, <<L("a", "T5", "")>>, TRUE, FALSE) >>   \* c3: (T2,T4) -> a:T5, run once
            : o2 \in BOOLEAN, f2 \in BOOLEAN }
 
-InputSets == {<<>>, <<1>>, <<1, 2>>, <<2>>, <<1, 3>>}
+InputSets == IF Small THEN {<<>>, <<1>>, <<1, 2>>} ELSE {<<>>, <<1>>, <<1, 2>>, <<2>>, <<1, 3>>}
 Steps == { [op |-> o, target |-> t, inputs |-> i, hasFilter |-> FALSE, filterIn |-> <<>>, filterOut |-> "none", followUp |-> FALSE] :
              o \in {"call", "redefine"}, t \in 1..4, i \in InputSets }
-         \cup { [op |-> "redefine", target |-> t, inputs |-> i, hasFilter |-> TRUE, filterIn |-> <<"T3", "T4">>, filterOut |-> "none", followUp |-> FALSE] :
-                  t \in 1..3, i \in {<<>>, <<2>>} }
+         \cup { x \in { [op |-> "redefine", target |-> t, inputs |-> i, hasFilter |-> TRUE, filterIn |-> <<"T3", "T4">>, filterOut |-> "none", followUp |-> FALSE] :
+                  t \in 1..3, i \in {<<>>, <<2>>} } : ~Small }
          \cup { [op |-> "convert", target |-> t, inputs |-> i, hasFilter |-> FALSE, filterIn |-> <<>>, filterOut |-> "none", followUp |-> FALSE] :
-                  t \in 1..2, i \in {<<1>>, <<>>} }
+                  t \in (IF Small THEN {1} ELSE 1..2), i \in {<<1>>, <<>>} }
 
 VARIABLES pool, steps,      \* the history so far
           memo, execs       \* abstract life cycle of the run-once converters: memo[c] in {"none","done"}, execs[c]
